@@ -312,32 +312,19 @@ theorem set_time_usec_int (env : Env) (henv : env.strtod = strtodC) (ip : Bytes)
     simp [applySetter, hp, hex]
 
 
-/-- `cf_set_time_double` on a plain decimal spelling with a positive value below 2^50: the
-    binary64 nearest to the decimal value is stored (relative error ≤ 2⁻⁵³, see `roundRat_spec`) -/
-theorem set_time_double_plain (env : Env) (henv : env.strtod = strtodC) (ip fp : Bytes) (hip : AllDig ip)
+/-- `cf_set_time_double` on `ip.fp` with a positive value in `[2^-20, 2^50)`: the binary64 nearest to
+    the decimal value is stored (hypotheses on the value as a rational) -/
+theorem set_time_double_plainQ (env : Env) (henv : env.strtod = strtodC) (ip fp : Bytes) (hip : AllDig ip)
     (hne : ip ≠ []) (hfp : AllDig fp) (hpos : 0 < decVal (ip ++ fp) 0)
-    (hlo : 10 ^ fp.length ≤ decVal (ip ++ fp) 0 * 1048576)
-    (hhi : decVal (ip ++ fp) 0 < 1125899906842624 * 10 ^ fp.length) :
+    (h1 : (1 : ℚ) / 1048576 ≤ ((decVal (ip ++ fp) 0 : Nat) : ℚ) / ((10 ^ fp.length : Nat) : ℚ))
+    (h2 : ((decVal (ip ++ fp) 0 : Nat) : ℚ) / ((10 ^ fp.length : Nat) : ℚ) < 1125899906842624) :
     applySetter env .timeDouble (ip ++ 46 :: fp) =
       some (.dbl (dblOfRat false (decVal (ip ++ fp) 0) (10 ^ fp.length))) := by
-  have hlen : (ip ++ 46 :: fp).length ≠ 0 := by simp
   have hst := strtodC_plain ip fp hip hne hfp
   have hpow : 0 < 10 ^ fp.length := Nat.pow_pos (by norm_num)
   have hb : (decVal (ip ++ fp) 0 == 0) = false := by simp; omega
   rw [hb] at hst
   simp only [Bool.false_eq_true, if_false, Nat.pow_zero, Nat.mul_one, Nat.add_zero] at hst
-  have hbq : (0 : ℚ) < ((10 ^ fp.length : Nat) : ℚ) := by exact_mod_cast hpow
-  have h1 : (1 : ℚ) / 1048576 ≤ ((decVal (ip ++ fp) 0 : Nat) : ℚ) / ((10 ^ fp.length : Nat) : ℚ) := by
-    rw [div_le_div_iff₀ (by norm_num) hbq]
-    have : ((10 ^ fp.length : Nat) : ℚ) ≤ ((decVal (ip ++ fp) 0 * 1048576 : Nat) : ℚ) := by exact_mod_cast hlo
-    push_cast at this ⊢
-    linarith
-  have h2 : ((decVal (ip ++ fp) 0 : Nat) : ℚ) / ((10 ^ fp.length : Nat) : ℚ) < 1125899906842624 := by
-    rw [div_lt_iff₀ hbq]
-    have : ((decVal (ip ++ fp) 0 : Nat) : ℚ) < ((1125899906842624 * 10 ^ fp.length : Nat) : ℚ) := by
-      exact_mod_cast hhi
-    push_cast at this ⊢
-    linarith
   have hfin := finish_normal (decVal (ip ++ fp) 0) (10 ^ fp.length) (ip ++ 46 :: fp).length hpos hpow
     (lo_ok h1) (hi_ok h2)
   rw [hfin] at hst
@@ -350,6 +337,51 @@ theorem set_time_double_plain (env : Env) (henv : env.strtod = strtodC) (ip fp :
     rw [henv, hst]
     simp [hlt]
   simp [applySetter, hp]
+
+/-- the same without a decimal point -/
+theorem set_time_double_intQ (env : Env) (henv : env.strtod = strtodC) (ip : Bytes) (hip : AllDig ip)
+    (hne : ip ≠ []) (hpos : 0 < decVal ip 0)
+    (h1 : (1 : ℚ) / 1048576 ≤ ((decVal ip 0 : Nat) : ℚ) / ((1 : Nat) : ℚ))
+    (h2 : ((decVal ip 0 : Nat) : ℚ) / ((1 : Nat) : ℚ) < 1125899906842624) :
+    applySetter env .timeDouble ip = some (.dbl (dblOfRat false (decVal ip 0) 1)) := by
+  have hlen : ip.length ≠ 0 := fun h => hne (List.eq_nil_of_length_eq_zero h)
+  have hst := strtodC_int ip hip hne
+  have hb : (decVal ip 0 == 0) = false := by simp; omega
+  rw [hb] at hst
+  simp only [Bool.false_eq_true, if_false, Nat.pow_zero, Nat.mul_one, Nat.add_zero] at hst
+  have hfin := finish_normal (decVal ip 0) 1 ip.length hpos (by norm_num) (lo_ok h1) (hi_ok h2)
+  rw [hfin] at hst
+  have hlt : (dblOfRat false (decVal ip 0) 1).ltZero = false := by
+    unfold dblOfRat
+    cases roundRat (decVal ip 0) 1 <;> rfl
+  have hp : parseTime env ip = some (dblOfRat false (decVal ip 0) 1) := by
+    unfold parseTime
+    rw [henv, hst]
+    simp [hlen, hlt]
+  simp [applySetter, hp]
+
+/-- `cf_set_time_double` on a plain decimal spelling with a positive value below 2^50: the
+    binary64 nearest to the decimal value is stored (relative error ≤ 2⁻⁵³, see `roundRat_spec`) -/
+theorem set_time_double_plain (env : Env) (henv : env.strtod = strtodC) (ip fp : Bytes) (hip : AllDig ip)
+    (hne : ip ≠ []) (hfp : AllDig fp) (hpos : 0 < decVal (ip ++ fp) 0)
+    (hlo : 10 ^ fp.length ≤ decVal (ip ++ fp) 0 * 1048576)
+    (hhi : decVal (ip ++ fp) 0 < 1125899906842624 * 10 ^ fp.length) :
+    applySetter env .timeDouble (ip ++ 46 :: fp) =
+      some (.dbl (dblOfRat false (decVal (ip ++ fp) 0) (10 ^ fp.length))) := by
+  have hpow : 0 < 10 ^ fp.length := Nat.pow_pos (by norm_num)
+  have hbq : (0 : ℚ) < ((10 ^ fp.length : Nat) : ℚ) := by exact_mod_cast hpow
+  have h1 : (1 : ℚ) / 1048576 ≤ ((decVal (ip ++ fp) 0 : Nat) : ℚ) / ((10 ^ fp.length : Nat) : ℚ) := by
+    rw [div_le_div_iff₀ (by norm_num) hbq]
+    have : ((10 ^ fp.length : Nat) : ℚ) ≤ ((decVal (ip ++ fp) 0 * 1048576 : Nat) : ℚ) := by exact_mod_cast hlo
+    push_cast at this ⊢
+    linarith
+  have h2 : ((decVal (ip ++ fp) 0 : Nat) : ℚ) / ((10 ^ fp.length : Nat) : ℚ) < 1125899906842624 := by
+    rw [div_lt_iff₀ hbq]
+    have : ((decVal (ip ++ fp) 0 : Nat) : ℚ) < ((1125899906842624 * 10 ^ fp.length : Nat) : ℚ) := by
+      exact_mod_cast hhi
+    push_cast at this ⊢
+    linarith
+  exact set_time_double_plainQ env henv ip fp hip hne hfp hpos h1 h2
 
 theorem allDig_of_isDigit {l : Bytes} (h : ∀ c ∈ l, isDigit c = true) : AllDig l := by
   intro c hc
